@@ -199,6 +199,22 @@ def CBoard.sub? (b : CBoard) : List (String × String) → Option CBoard
     let c ← b.boards.find? fun x => x.kind == k && x.name == n
     c.sub? r
 
+/-! ### verdict lines must be single lines (`repr` of long values breaks lines) -/
+
+def flat (s : String) : String := s.map fun c => if c == '\n' || c == '\r' then ' ' else c
+
+def oneLine : Verdict → Verdict
+  | .mismatch s d => .mismatch (flat s) (flat d)
+  | .specfalse s d => .specfalse (flat s) (flat d)
+  | .bad w => .bad (flat w)
+  | .skip w => .skip (flat w)
+  | .ok => .ok
+
+def single (f : Json → Except String Verdict) (j : Json) : Except String Verdict :=
+  match f j with
+  | .ok v => .ok (oneLine v)
+  | .error e => .error (flat e)
+
 /-! ### co-process loop: one JSON request per line in, one JSON answer per line out -/
 
 partial def xformLoop (f : Json → Except String Json) : IO Unit := do
